@@ -423,14 +423,13 @@ func (e *c16env) step() {
 }
 
 func proto16Clone(p *protobufcompiled.Transaction) *protobufcompiled.Transaction {
-	c := *p
-	c.Spice = &protobufcompiled.Spice{Currency: p.Spice.Currency, SupplementaryCurrency: p.Spice.SupplementaryCurrency}
-	c.Data = append([]byte{}, p.Data...)
-	c.Hash = append([]byte{}, p.Hash...)
-	c.IssuerSignature = append([]byte{}, p.IssuerSignature...)
-	c.ReceiverSignature = append([]byte{}, p.ReceiverSignature...)
-	return &protobufcompiled.Transaction{Subject: c.Subject, Data: c.Data, Hash: c.Hash, CreatedAt: c.CreatedAt, ReceiverAddress: c.ReceiverAddress, IssuerAddress: c.IssuerAddress,
-		ReceiverSignature: c.ReceiverSignature, IssuerSignature: c.IssuerSignature, Spice: c.Spice}
+	var sp *protobufcompiled.Spice
+	if p.Spice != nil {
+		sp = &protobufcompiled.Spice{Currency: p.Spice.Currency, SupplementaryCurrency: p.Spice.SupplementaryCurrency}
+	}
+	return &protobufcompiled.Transaction{Subject: p.Subject, Data: append([]byte{}, p.Data...), Hash: append([]byte{}, p.Hash...), CreatedAt: p.CreatedAt,
+		ReceiverAddress: p.ReceiverAddress, IssuerAddress: p.IssuerAddress, ReceiverSignature: append([]byte{}, p.ReceiverSignature...),
+		IssuerSignature: append([]byte{}, p.IssuerSignature...), Spice: sp}
 }
 
 // concurrent duplicates: k goroutines confirm / reject / propose the same transaction from a barrier
